@@ -254,7 +254,8 @@ def bundled_session(ctx, rng, kind=None):
     client_mod.ObservedPlayingPhase = RecordingObserved
     random.seed(gseed)
     try:
-        r = session.run_session(sc, SP.make_policy(pdesc), ctx.workdir, client_factory=factory, max_steps=600000)
+        r = session.run_session(sc, SP.make_policy(pdesc), ctx.workdir, client_factory=factory, max_steps=600000,
+                                segment=pdesc.get('segment'))
     finally:
         client_mod.ObservedPlayingPhase = Orig
     ctx.count('_cases')
